@@ -74,6 +74,7 @@ type Mutation {
   bump(by: Int): Int
   diff(a: Int, b: Int): Int
   renamed: String
+  find(artist: String, album: String, title: String, year: Int): String
 }
 `
 
@@ -225,6 +226,12 @@ func (m *Mutation) Bump(by int32) int { return m.N + int(by) }
 // Minus is bound to Mutation.diff with RegisterField; its parameters are in the opposite order of the GraphQL arguments.
 func (m *Mutation) Minus(b int, a int) int { called("Mutation.Minus"); return a - b }
 
+// FindTrack is bound to Mutation.find with RegisterField; its parameters are a rotation (not a swap) of the GraphQL arguments.
+func (m *Mutation) FindTrack(title string, year int, artist string, album string) string {
+	called("Mutation.FindTrack")
+	return fmt.Sprintf("artist=%s album=%s title=%s year=%d", artist, album, title, year)
+}
+
 // OtherName is bound to Mutation.renamed with RegisterField (the names are unrelated).
 func (m *Mutation) OtherName() string { return "renamed ok" }
 
@@ -248,6 +255,9 @@ func NewRoot() (*ggql.Root, *Root, error) {
 		return nil, nil, err
 	}
 	if err := root.RegisterField("Mutation", "diff", "Minus", "b", "a"); err != nil {
+		return nil, nil, err
+	}
+	if err := root.RegisterField("Mutation", "find", "FindTrack", "title", "year", "artist", "album"); err != nil {
 		return nil, nil, err
 	}
 	if err := root.RegisterField("Mutation", "renamed", "OtherName"); err != nil {
@@ -282,6 +292,7 @@ var Requests = []struct {
 	{`query Q($s: Boolean = true) { name @skip(if: $s) count @include(if: $s) }`, nil},
 	{`mutation { bump(by: 3) }`, nil},
 	{`mutation { diff(a: 10, b: 3) renamed }`, nil},
+	{`mutation { find(album: "b", year: 1999, artist: "a", title: "t") }`, nil},
 	{`mutation($x: Int = 2) { d1: diff(b: $x, a: 1) d2: diff(a: $x) }`, nil},
 	{`{ pick(i: 1) { id } }`, nil},
 	{`{ add(a: 1, b: 2) }`, nil},
